@@ -754,3 +754,64 @@ let () = register "c04" (fun line ->
     | None -> None) ks in
   S.concat " ; " (L.rev !replies) ^ " || " ^ S.concat " " (L.sort compare data) ^ " || " ^ S.concat "," (L.rev !execs)
   ^ " || redirected-to-client=0 lost-or-duplicated-keys=0")
+
+(* ---------------- C07: healing ---------------- *)
+let () = register "c07" (fun line ->
+  let (hd, tl) = match Str.bounded_split_delim (Str.regexp_string " # ") line 2 with
+    | [a; b] -> (a, b) | _ -> failwith "bad c07 line" in
+  let f = Array.of_list (L.filter (fun x -> x <> "") (S.split_on_char ' ' hd)) in
+  let nn = int_of_string f.(0) in
+  let layout = Array.make 16384 0 in
+  L.iter (fun r -> Scanf.sscanf r "%d-%d=%d" (fun lo hi n -> for s = lo to hi do layout.(s) <- n done)) (S.split_on_char ',' f.(1));
+  let hosts = L.init nn n_of_int in
+  let layout0 = Array.copy layout in
+  let st = ref (Heal.hinit (fun s -> n_of_int layout0.(int_of_n s))) in
+  let last = Hashtbl.create 8 in
+  let outs = ref [] in
+  let gone = ref [] and next_node = ref nn in
+  let step o = let (s', r) = Heal.do_hop RedisSem.sem c04_slot hosts !st o in st := s'; r in
+  L.iter (fun it ->
+    let fs = L.filter (fun x -> x <> "") (S.split_on_char ' ' it) in
+    let nat i = n_of_int (int_of_string (L.nth fs i)) in
+    match fs with
+    | [] -> ()
+    | ("q" | "q!") :: body ->
+      let v = parse_val (Array.of_list body) (ref 0) in
+      (match Cluster.req_of_plan (plan_of v) with
+       | Some (Cluster.RFwd (_, [s])) ->
+         (match step (Heal.HReq s) with
+          | Some (Heal.ROk (r, n, id, red)) ->
+            let ni = int_of_n n in
+            let fresh = match Hashtbl.find_opt last ni with None -> "first" | Some i -> if i = id then "same" else "new" in
+            Hashtbl.replace last ni id;
+            outs := Printf.sprintf "ok:%s:%d:%s:%s" (val_string r) ni fresh (if red then "r" else "-") :: !outs
+          | Some (Heal.RErr _) -> outs := "err" :: !outs
+          | None -> outs := "?" :: !outs)
+       | _ -> outs := "NOT-SINGLE-KEY" :: !outs)
+    | ["kill"; _] -> ignore (step (Heal.HKill (nat 1)))
+    | ["down"; _] -> ignore (step (Heal.HDown (nat 1)))
+    | ["up"; _] -> ignore (step (Heal.HUp (nat 1)))
+    | ["lay"; lo; hi; n] ->
+      for sl = int_of_string lo to int_of_string hi do layout.(sl) <- int_of_string n done;
+      ignore (step (Heal.HLay (nat 1, nat 2, nat 3)))
+    | ["mv"; n] ->
+      (* the node restarts under a new address: the old address refuses, its slots belong to a fresh address *)
+      let o = int_of_string n in
+      if not (L.mem o !gone) then begin
+        gone := o :: !gone;
+        let fresh = !next_node in
+        incr next_node;
+        ignore (step (Heal.HDown (n_of_int o)));
+        let sl = ref 0 in
+        while !sl < 16384 do
+          if layout.(!sl) = o then begin
+            let lo = !sl in
+            while !sl < 16384 && layout.(!sl) = o do layout.(!sl) <- fresh; incr sl done;
+            ignore (step (Heal.HLay (n_of_int lo, n_of_int (!sl - 1), n_of_int fresh)))
+          end else incr sl
+        done
+      end
+    | ["w"] -> ignore (step Heal.HWait)
+    | _ -> ())
+    (Str.split (Str.regexp_string " ; ") tl);
+  S.concat " ; " (L.rev !outs) ^ " || refresh-after-redirect=ok")
